@@ -206,6 +206,11 @@ def statement_extent(text, first):
     if first < 1 or first > n: return first, first
     end = first
     while end < n and _cont(lines[end - 1]): end += 1
+    if re.match(rb'(pool|rule)[ ]+[A-Za-z0-9_.-]+[ ]*#', lines[end - 1]):
+        # "pool p# text": the comment swallows the line end, the header's newline token is the next non-comment line
+        end += 1
+        while end < n and lines[end - 1].lstrip(b' ').startswith(b'#'): end += 1
+        end = min(end, n)
     j = end + 1
     while j <= n:
         ln = lines[j - 1]; st = ln.lstrip(b' ')
